@@ -310,6 +310,7 @@ func gatePar1(w *World, r *Report, probe bool) {
 				key := fmt.Sprintf("G5:LoadParityData:accept#%d", i)
 				setOK, numOK := false, false
 				for _, pr := range eqFacts(ret.Block()) {
+					pr = [2]ssa.Value{resolveSingle(pr[0]), resolveSingle(pr[1])}
 					a, b := deepPath(pr[0]), deepPath(pr[1])
 					if strings.HasSuffix(a.Path, ".header.SetHash") && strings.HasSuffix(b.Path, ".indexVolume.header.SetHash") {
 						setOK = true
@@ -320,6 +321,9 @@ func gatePar1(w *World, r *Report, probe bool) {
 							_ = vc
 						}
 						for _, vc := range callsIn(fn, "(*par1.Decoder).volumePath") {
+							if stripAllConv(pr[1]) == stripAllConv(resolveSingle(vc.Common().Args[1])) {
+								numOK = true
+							}
 							if sameImage(stripAllConv(pr[1]), stripAllConv(vc.Common().Args[1])) || sameNumber(pr[1], vc.Common().Args[1]) || sameLinear(pr[1], vc.Common().Args[1]) {
 								numOK = true
 							}
@@ -342,7 +346,7 @@ func gatePar1(w *World, r *Report, probe bool) {
 			if vc.Parent() != fn || !probe {
 				continue
 			}
-			arg := stripAllConv(vc.Common().Args[1])
+			arg := stripAllConv(resolveSingle(vc.Common().Args[1]))
 			off := int64(0)
 			base := arg
 			if bo, ok := arg.(*ssa.BinOp); ok && bo.Op == token.ADD {
@@ -721,4 +725,70 @@ func sameLinear(a, b ssa.Value) bool {
 	ra, oa := linForm(a, 0)
 	rb, ob := linForm(b, 0)
 	return ra == rb && oa == ob
+}
+
+// resolveSingle looks through a load of a local cell (an Alloc, or a FreeVar bound
+// to one by the enclosing function's MakeClosure) that is assigned exactly once,
+// and returns the assigned value: `x := e` captured by a function literal is `e`.
+func resolveSingle(v ssa.Value) ssa.Value {
+	for i := 0; i < 6; i++ {
+		inner := stripConv(v)
+		ld, ok := inner.(*ssa.UnOp)
+		if !ok || ld.Op != token.MUL {
+			return v
+		}
+		var cell *ssa.Alloc
+		switch x := ld.X.(type) {
+		case *ssa.Alloc:
+			cell = x
+		case *ssa.FreeVar:
+			lit := x.Parent()
+			idx := -1
+			for j, fv := range lit.FreeVars {
+				if fv == x {
+					idx = j
+				}
+			}
+			if par := lit.Parent(); par != nil && idx >= 0 {
+				for _, b := range par.Blocks {
+					for _, in := range b.Instrs {
+						if mc, ok := in.(*ssa.MakeClosure); ok && mc.Fn == ssa.Value(lit) && idx < len(mc.Bindings) {
+							cell, _ = mc.Bindings[idx].(*ssa.Alloc)
+						}
+					}
+				}
+			}
+		}
+		if cell == nil {
+			return v
+		}
+		var only ssa.Value
+		cnt := 0
+		for _, ref := range referrersOf(cell) {
+			if st, ok := ref.(*ssa.Store); ok && st.Addr == ssa.Value(cell) {
+				only = st.Val
+				cnt++
+			}
+			// assignments made inside a function literal that captured the cell
+			if mc, ok := ref.(*ssa.MakeClosure); ok {
+				if lit, ok := mc.Fn.(*ssa.Function); ok {
+					for j, bnd := range mc.Bindings {
+						if bnd != ssa.Value(cell) || j >= len(lit.FreeVars) {
+							continue
+						}
+						for _, r2 := range referrersOf(lit.FreeVars[j]) {
+							if st, ok := r2.(*ssa.Store); ok && st.Addr == ssa.Value(lit.FreeVars[j]) {
+								cnt++
+							}
+						}
+					}
+				}
+			}
+		}
+		if cnt != 1 {
+			return v
+		}
+		v = only
+	}
+	return v
 }
